@@ -311,8 +311,9 @@ pub proof fn lemma_payload_suffix(f: Seq<(Seq<char>, MV)>, i: int, skip: Set<Seq
 pub open spec fn values_bounded(m: &HashMap<AvId, Vec<u8>>, n: int) -> bool { forall|k: AvId| #[trigger] m.m().contains_key(k) ==> m.m()[k]@.len() + 4 <= n }
 /// C07: a successful read of one AV pair consumes at least its 4 byte header
 pub proof fn lemma_av_pair_min()
-    ensures min_wire_len(av_pair_view()) >= 4
+    ensures min_wire_len(av_pair_view()) >= 4, arrays_empty(av_pair_view())
 {
+    reveal_with_fuel(arrays_empty, 4);
     reveal_with_fuel(min_wire_len, 4); reveal_with_fuel(min_fields_from, 4);
     let f = av_pair_view()->Comp_0;
     assert(f.len() == 3);
@@ -631,7 +632,13 @@ F("read_target_info", props=["C07"], nloops=1,
             assert(e[2].1 is Bytes);
             assert(ser(element.mv()).len() == 4 + e[2].1->Bytes_0.len());
             assert(first_key(e, "Value"@) == 2);
-        }""")])
+            assert(rest0.len() <= data@.len());
+            assert(ser(element.mv()).len() + stream.rest().len() <= rest0.len());
+            assert(e[2].1->Bytes_0.len() + 4 <= data@.len());
+        }"""),
+         (r"element\.read\(&mut stream\)\?;", 1, "let ghost rest0 = stream.rest();", "before"),
+         (r"result\.insert\(av_id, ", 1, "let ghost m0 = result.m();", "before"),
+         (r"result\.insert\(av_id, ", 1, "proof { assert forall|k: AvId| #[trigger] result.m().contains_key(k) implies result.m()[k]@.len() + 4 <= data@.len() by { if k != av_id.kv() { assert(m0.contains_key(k)); } } }")])
 F("z", props=["C15"], ensures=["r@ =~= zeros(m as nat)"])
 F("ntowfv2", props=["C15", "C17"], body_sub=UPPER,
   ensures=[("C15,C17", "ntowfv2", "r@ == ntowfv2_of_hash(nt_hash_of(password@), user@, domain@)")])
@@ -775,6 +782,14 @@ UNWRAP_HINTS = [
 F("gss_unwrapex", IMPL_GSS, props=["C16", "C01", "C07"], body_sub=CONCAT_VECS, keys=True,
   pre="broadcast use axiom_digest_len; proof { lemma_rc4_wf(&self.decrypt); reveal_with_fuel(flat, 4); } let ghost st = self.decrypt.view(); let ghost vk = self.verify_key@;",
   hints=UNWRAP_HINTS,
+  # once both reads succeeded the only rejection is a checksum mismatch (kills the "always reject" mutant, e.g. comparing against [0..7])
+  claims=[(r"return Err\(.*InvalidChecksum", 1, """proof {
+            assert(payload@ == data@.skip(16));
+            assert(checksum@ == data@.subrange(4, 12));
+            assert(seq_num@ == data@.subrange(12, 16));
+            assert(computed_checksum@.subrange(0, 8) =~= computed_checksum@.take(8));
+            assert(plaintext_checksum@ != computed_checksum@.take(8));
+            assert(unseal_spec_fn(st, vk, data@) is None); }""", "before", "C16,C01", "rejected-only-on-checksum-mismatch")],
   ensures=[("C16", "state-continuity", "r is Ok ==> final(self).decrypt.view() == rc4::advance(old(self).decrypt.view(), (data@.len() - 8) as nat)"),
            ("C16", "frame", "final(self).seq_num == old(self).seq_num && final(self).verify_key == old(self).verify_key && final(self).signing_key == old(self).signing_key && final(self).encrypt == old(self).encrypt")])
 
